@@ -55,6 +55,12 @@ def fail(node, why):
 INT, BOOL, STR, NONE = "int", "bool", "str", "none"
 COLOR, KIND, MTYPE, PIECE, MOVE, POS, SC, REASON, DELTA = ("Color", "Kind", "MoveType", "Piece", "Move", "Position",
                                                            "StoneCounts", "WinReason", "delta")
+CONFIG, CHAR = "Config", "char"
+
+
+def CLS(name):
+    """the `cls` parameter of a classmethod: not a Coq parameter"""
+    return ("classref", name)
 
 
 def L(t):
@@ -70,7 +76,7 @@ def O(t):
 
 
 COQ_BASE = {INT: "Z", BOOL: "bool", STR: "string", COLOR: "color", KIND: "kind", MTYPE: "mtype", PIECE: "piece",
-            MOVE: "mv", POS: "position", SC: "stonecounts", REASON: "reason", DELTA: "delta"}
+            MOVE: "mv", POS: "position", SC: "stonecounts", REASON: "reason", DELTA: "delta", CONFIG: "config", CHAR: "Z"}
 
 
 def coq_type(t, top=True):
@@ -196,7 +202,9 @@ color kind piece stack position mv mtype reason stonecounts delta res exn
 White Black Flat Standing Capstone Road Flats
 PlaceFlat PlaceStanding PlaceCapstone SlideLeft SlideRight SlideUp SlideDown
 mkPiece mkMove mkPos mkSC mkDelta pcolor pkind size ply board wstones wcaps bstones bcaps mx my mt mslides
-color_eqb kind_eqb mtype_eqb reason_eqb zlen zsum upd sq getz updz has_road
+color_eqb kind_eqb mtype_eqb reason_eqb zlen zsum upd sq getz updz has_road config mkCfg csize cpieces ccaps fuel fuel'
+mk_position py_tuple2_update py_try py_unpack2 py_unpack3 py_list_repeat py_str_int py_int_str py_isdigit py_isascii
+py_join py_split1 pystr ch pystr_eqb rev concat repeat py_uncons pair_eqb list_eqb
 Ok Illegal Crash ret bind embed res_map len py_index py_getitem py_setitem py_bound py_slice truthy_list py_range
 py_range2 py_sum py_iter_opt py_tuple2_get py_tuple2_list py_dict_get pos_stones sc_stones sc_caps py_getattr_sc
 sc_evolve delta_empty set_d_ply set_d_stones set_d_board d_ply d_stones d_board evolve_position
@@ -216,7 +224,17 @@ ENUMS = {  # python enum -> (module, coq type tag, {member: coq constructor})
                                   "SLIDE_RIGHT": "SlideRight", "SLIDE_UP": "SlideUp", "SLIDE_DOWN": "SlideDown"}),
     "WinReason": ("game", REASON, {"ROAD": "Road", "FLATS": "Flats"}),
 }
-EQB = {INT: "Z.eqb", COLOR: "color_eqb", KIND: "kind_eqb", MTYPE: "mtype_eqb", REASON: "reason_eqb", STR: "String.eqb"}
+EQB = {CHAR: "Z.eqb", INT: "Z.eqb", COLOR: "color_eqb", KIND: "kind_eqb", MTYPE: "mtype_eqb", REASON: "reason_eqb", STR: "String.eqb"}
+
+def eqb_term(t):
+    if t == BOOL:
+        return "Bool.eqb"
+    if isinstance(t, str) and t in EQB:
+        return EQB[t]
+    if isinstance(t, tuple) and t[0] == "tuple" and len(t) == 3:
+        return app("pair_eqb", eqb_term(t[1]), eqb_term(t[2]))
+    raise Untranslatable(f"no equality test for {t}")
+
 
 # attribute of a value: (type, attr) -> (coq accessor, type)
 ATTRS = {
@@ -226,7 +244,12 @@ ATTRS = {
     (MOVE, "slides"): ("mslides", O(L(INT))),
     (PIECE, "color"): ("pcolor", COLOR), (PIECE, "kind"): ("pkind", KIND),
     (SC, "stones"): ("sc_stones", INT), (SC, "caps"): ("sc_caps", INT),
+    (CONFIG, "size"): ("csize", INT), (CONFIG, "pieces"): ("cpieces", O(INT)), (CONFIG, "capstones"): ("ccaps", O(INT)),
 }
+# properties (attribute syntax, function semantics) and class-level constants read through an instance
+PROPS = {(CONFIG, "flat_count"): "Config.flat_count", (CONFIG, "capstone_count"): "Config.capstone_count"}
+INSTANCE_CONSTS = {(CONFIG, "DEFAULT_PIECES"): "Config.DEFAULT_PIECES", (CONFIG, "DEFAULT_CAPS"): "Config.DEFAULT_CAPS"}
+MODULE_ALIASES = ("pieces", "moves", "game", "tak")    # tak/__init__.py star-imports the three (pinned)
 
 # (module, qualified name, coq name, parameter types by position, result type, extra leading parameters)
 # result DELTA + no return statement = the function's effect on its dict parameter
@@ -247,6 +270,9 @@ TARGETS = [
     ("game", "Position._move_slide", "_move_slide", [POS, MOVE, DELTA], DELTA, []),
     ("game", "Position.move", "move", [POS, MOVE], POS, []),
     ("game", "Position.all_moves", "all_moves", [POS], L(MOVE), []),
+    ("game", "Config.flat_count", "flat_count", [CONFIG], INT, []),
+    ("game", "Config.capstone_count", "capstone_count", [CONFIG], INT, []),
+    ("game", "Position.from_squares", "from_squares", [CLS("Position"), CONFIG, L(L(PIECE)), INT], POS, []),
 ]
 METHODS = {  # (receiver type, method) -> qualified name
     (COLOR, "flip"): "Color.flip", (MTYPE, "is_slide"): "MoveType.is_slide", (MTYPE, "direction"): "MoveType.direction",
@@ -264,7 +290,9 @@ PINNED = {
     ("pieces", "Piece._init_cache"): "def _init_cache(cls):\n    for c in Color:\n        for k in Kind:\n"
                                      "            _piece_cache[c.value][k.value] = cls(c, k)",
 }
+PINNED_INIT = "from .game import *\nfrom .moves import *\nfrom .pieces import *"
 PINNED_FIELDS = {  # attrs classes: field names in order
+    ("game", "Config"): ["size", "pieces", "capstones"],
     ("pieces", "Piece"): ["color", "kind"],
     ("moves", "Move"): ["x", "y", "type", "slides"],
     ("game", "StoneCounts"): ["stones", "caps"],
@@ -279,8 +307,9 @@ class V:
     """result of translating an expression: statements to run first, a term, its type; comp = the term is a
     computation of type `res ty` that has not been bound yet"""
 
-    def __init__(self, pre, term, ty, comp=False, fresh=False):
+    def __init__(self, pre, term, ty, comp=False, fresh=False, lit=None):
         self.pre, self.term, self.ty, self.comp, self.fresh = pre, term, ty, comp, fresh
+        self.lit = lit      # the Python value when the expression is a str literal (code-point mode)
 
 
 def wrap(pre, tree):
@@ -301,6 +330,27 @@ def tree_pure(t):
         return False
     if k == "if":
         return tree_pure(t[2]) and tree_pure(t[3])
+    if k == "matchopt":
+        return tree_pure(t[3]) and tree_pure(t[4])
+    if k == "catch":
+        return False
+    raise AssertionError(k)
+
+
+def map_tree(t, f, rhs=False):
+    """apply f to the leaves (ret / tail / tailrec / raise) of a tree; rhs: also inside bound sub-trees"""
+    k = t[0]
+    if k in ("ret", "tailrec", "raise", "tail"):
+        return f(t)
+    if k in ("let", "bind"):
+        r = map_tree(t[2], f, rhs) if (rhs and isinstance(t[2], tuple)) else t[2]
+        return (k, t[1], r, map_tree(t[3], f, rhs))
+    if k == "if":
+        return ("if", t[1], map_tree(t[2], f, rhs), map_tree(t[3], f, rhs))
+    if k == "matchopt":
+        return (k, t[1], t[2], map_tree(t[3], f, rhs), map_tree(t[4], f, rhs))
+    if k == "catch":
+        return (k, map_tree(t[1], f, rhs), t[2], map_tree(t[3], f, rhs))
     raise AssertionError(k)
 
 
@@ -329,6 +379,10 @@ def purify0(t):
         return ("bind", t[1], t[2], purify(t[3]))
     if k == "if":
         return ("if", t[1], purify(t[2]), purify(t[3]))
+    if k == "matchopt":
+        return (k, t[1], t[2], purify(t[3]), purify(t[4]))
+    if k == "catch":
+        return (k, purify(t[1]), t[2], purify(t[3]))
     raise AssertionError(k)
 
 
@@ -358,6 +412,11 @@ def show(t, ind, mon):
         if a[0] == "raise":
             return f"{sp}if {t[1]} then {a[1]} else\n" + show(b, ind, mon)
         return f"{sp}if {t[1]} then\n" + show(a, ind + 2, mon) + f"\n{sp}else\n" + show(b, ind + 2, mon)
+    if k == "matchopt":
+        return (f"{sp}match {t[1]} with\n{sp}| Some {t[2]} =>\n" + show(t[3], ind + 4, mon) +
+                f"\n{sp}| None =>\n" + show(t[4], ind + 4, mon) + f"\n{sp}end")
+    if k == "catch":
+        return (f"{sp}py_try (\n" + show(t[1], ind + 4, True) + f") {t[2]} (\n" + show(t[3], ind + 4, True) + ")")
     raise AssertionError(k)
 
 
@@ -399,6 +458,7 @@ class Fn:
         self.loop_depth = 0
         self.branch_depth = 0
         self.locals = set()
+        self.body = None       # the FunctionDef being translated
 
     def temp(self):
         self.ntemp += 1
@@ -412,11 +472,18 @@ class Translator:
     def __init__(self, sources):
         """sources: {module name: source text}"""
         self.src = sources
-        self.mods = {m: ast.parse(s) for m, s in sources.items()}
+        self.mods = {m: ast.parse(s) for m, s in sources.items() if s is not None and m != "__init__"}
         self.funcs = {}     # qualified name -> dict(coq, params, ret, pure, extra)
         self.out = []       # text blocks
         self.enum_members = {}   # python enum -> {member: int}
         self.move_defaults = {}
+        self.prefix = ""         # qualifier of the names of an earlier generated file (second and later outputs)
+        self.consts = {}         # module / class level constants: dotted name -> dict(coq, ty, pure)
+        self.scope = ""          # "Token." while the body of class Token is translated
+        self.str_codepoints = False   # tps.py: str = list of code points; game.py: the two slot names are Coq strings
+        self.illegal = "IllegalMove"  # the module's own refusal exception -> `Illegal`
+        self.while_fuel = {}
+        self.coq_names = set()
 
     # ------------------------------------------------------------------ source lookup
     def find_class(self, module, name):
@@ -452,6 +519,17 @@ class Translator:
             decos = [_src(d) for d in cd.decorator_list]
             if not any(d.startswith("define") for d in decos):
                 fail(cd, f"{cls} is no longer an attrs class")
+        if self.src.get("__init__") is not None:
+            got = "\n".join(l.strip() for l in self.src["__init__"].splitlines() if l.strip().startswith("from "))
+            if got != PINNED_INIT:
+                raise Untranslatable("tak/__init__.py no longer star-imports exactly game, moves, pieces")
+        cfgc = self.find_class("game", "Config")
+        for n in cfgc.body:
+            if isinstance(n, ast.AnnAssign) and n.target.id in ("pieces", "capstones") and not (
+                    isinstance(n.value, ast.Constant) and n.value.value is None):
+                fail(n, "Config: default None expected")
+            if isinstance(n, ast.AnnAssign) and n.target.id == "size" and n.value is not None:
+                fail(n, "Config.size has a default")
         # Move(x, y, type=PLACE_FLAT, slides=None)
         md = self.find_class("moves", "Move")
         for n in md.body:
@@ -523,8 +601,11 @@ class Translator:
         parts = self.dotted(e)
         if not parts or env.has(parts[0]):
             return None
-        if parts[0] in ("pieces", "moves") and len(parts) > 1:
+        if parts[0] in MODULE_ALIASES and len(parts) > 1:
             parts = parts[1:]
+        for key in (self.scope + ".".join(parts), ".".join(parts)):
+            if key in self.consts:
+                return ("const", key)
         if parts[0] in ENUMS:
             if len(parts) == 1:
                 return ("enumclass", parts[0])
@@ -537,6 +618,12 @@ class Translator:
             return ("piece_cached",)
         if parts == ["Move"]:
             return ("move_ctor",)
+        if parts == ["StoneCounts"]:
+            return ("sc_ctor",)
+        if parts == ["Config"]:
+            return ("config_ctor",)
+        if len(parts) == 2 and ".".join(parts) in self.funcs and self.funcs[".".join(parts)].get("classmethod"):
+            return ("classmethod", ".".join(parts))
         if parts == ["ALL_SLIDES"]:
             return ("all_slides",)
         if parts == ["DIRECTIONS"]:
@@ -586,8 +673,10 @@ class Translator:
             if type(c) is int:
                 return V([], zlit(c), INT)
             if type(c) is str:
-                if '"' in c or "\\" in c or not c.isascii():
+                if '"' in c or "\\" in c or not c.isascii() or not all(32 <= ord(x) < 127 for x in c):
                     fail(e, "string literal")
+                if self.str_codepoints:     # a str is the list of its code points
+                    return V([], f'pystr "{c}"', L(CHAR), False, False, c)
                 return V([], f'"{c}"%string', STR)
             fail(e, "constant")
         if isinstance(e, ast.Name):
@@ -602,10 +691,15 @@ class Translator:
             b = self.pure(fn, e.value, env)
             if e.attr == "value" and b.ty in (COLOR, KIND, MTYPE):
                 py = {COLOR: "Color", KIND: "Kind", MTYPE: "MoveType"}[b.ty]
-                return V(b.pre, app(f"{py}_value", b.term), INT)
+                return V(b.pre, app(f"{self.prefix}{py}_value", b.term), INT)
             if (b.ty, e.attr) in ATTRS:
                 acc, ty = ATTRS[(b.ty, e.attr)]
                 return V(b.pre, app(acc, b.term), ty)
+            if (b.ty, e.attr) in PROPS:
+                return self.call_function(fn, PROPS[(b.ty, e.attr)], [b], [], env, e)
+            if (b.ty, e.attr) in INSTANCE_CONSTS and INSTANCE_CONSTS[(b.ty, e.attr)] in self.consts:
+                c = self.consts[INSTANCE_CONSTS[(b.ty, e.attr)]]
+                return V(b.pre, c["coq"], c["ty"], not c["pure"])
             fail(e, f"attribute {e.attr} of a value of type {b.ty}")
         if isinstance(e, ast.Tuple):
             return self.tuple_expr(fn, e, env, want)
@@ -644,6 +738,13 @@ class Translator:
             fail(e, "unary operator")
         if isinstance(e, ast.BoolOp):
             return self.boolop(fn, e, env)
+        if isinstance(e, ast.IfExp):
+            c = self.pure(fn, e.test, env)
+            a = self.expr(fn, e.body, env, want)
+            b = self.expr(fn, e.orelse, env, want)
+            if a.comp or b.comp or a.pre or b.pre:
+                fail(e, "conditional expression whose branches can raise")
+            return V(c.pre, f"if {self.truth(c, e.test)} then {a.term} else {b.term}", unify(a.ty, b.ty, e))
         if isinstance(e, ast.Compare):
             return self.compare(fn, e, env)
         fail(e, f"expression {type(e).__name__}")
@@ -655,14 +756,17 @@ class Translator:
         if cc[0] == "member":
             return V([], ENUMS[cc[1]][2][cc[2]], ENUMS[cc[1]][1])
         if cc[0] == "membervalue":
-            return V([], app(f"{cc[1]}_value", ENUMS[cc[1]][2][cc[2]]), INT)
+            return V([], app(f"{self.prefix}{cc[1]}_value", ENUMS[cc[1]][2][cc[2]]), INT)
         if cc[0] == "all_slides":
             if "<ALL_SLIDES>" not in self.funcs:
                 fail(e, "ALL_SLIDES read before it is built")
             f = self.funcs["<ALL_SLIDES>"]
             return V([], f["coq"], f["ret"], not f["pure"])
         if cc[0] == "directions":
-            return V([], "DIRECTIONS", ("dict", MTYPE, T(INT, INT)))
+            return V([], self.prefix + "DIRECTIONS", ("dict", MTYPE, T(INT, INT)))
+        if cc[0] == "const":
+            c = self.consts[cc[1]]
+            return V([], c["coq"], c["ty"], not c["pure"])
         fail(e, "name used as a value")
 
     def tuple_expr(self, fn, e, env, want=None):
@@ -673,13 +777,14 @@ class Translator:
             v = self.pure(fn, e.elts[0], env)
             return V(v.pre, f"[{v.term}]", L(v.ty))
         wants = list(want[1:]) if isinstance(want, tuple) and want[0] == "tuple" and len(want) == n + 1 else [None] * n
-        pre, terms, tys = [], [], []
+        pre, terms, tys, fresh = [], [], [], True
         for x, w in zip(e.elts, wants):
             v = self.pure(fn, x, env, w)
             pre += v.pre
             terms.append(v.term)
             tys.append(v.ty)
-        return V(pre, "(" + ", ".join(terms) + ")", T(*tys))
+            fresh = fresh and v.fresh and isinstance(x, ast.List)
+        return V(pre, "(" + ", ".join(terms) + ")", T(*tys), False, fresh)
 
     def truth(self, v, node):
         """bool(v) as a Coq bool term"""
@@ -722,7 +827,7 @@ class Translator:
         if isinstance(b.ty, tuple) and b.ty[0] == "dict":
             if i.ty != b.ty[1]:
                 fail(e, "dict key of another type")
-            return V(pre, app("py_dict_get", EQB[b.ty[1]], b.term, i.term), b.ty[2], True)
+            return V(pre, app("py_dict_get", eqb_term(b.ty[1]), b.term, i.term), b.ty[2], True)
         fail(e, f"indexing a {b.ty}")
 
     def binop(self, fn, e, env):
@@ -732,6 +837,15 @@ class Translator:
         islist = lambda t: isinstance(t, tuple) and t[0] == "list"  # noqa
         if isinstance(e.op, ast.Add) and islist(a.ty) and islist(b.ty):
             return V(pre, f"{opd(a.term)} ++ {opd(b.term)}", unify(a.ty, b.ty, e), False, True)
+        if isinstance(e.op, ast.Add) and {a.ty, b.ty} <= {L(CHAR), CHAR}:     # str + one-character str
+            ta = a.term if a.ty == L(CHAR) else f"[{a.term}]"
+            tb = b.term if b.ty == L(CHAR) else f"[{b.term}]"
+            return V(pre, f"{opd(ta)} ++ {opd(tb)}", L(CHAR), False, True)
+        if isinstance(e.op, ast.Mult) and islist(a.ty) and b.ty == INT:
+            return V(pre, app("py_list_repeat", a.term, b.term), a.ty, False, True)
+        if a.ty == INT and b.ty == INT and isinstance(e.op, ast.FloorDiv) and isinstance(e.right, ast.Constant) \
+                and type(e.right.value) is int and e.right.value != 0:
+            return V(pre, f"{opd(a.term)} / {opd(b.term)}", INT)      # Z.div floors, like Python's //
         if a.ty == INT and b.ty == INT:
             if isinstance(e.op, (ast.Add, ast.Sub, ast.Mult)):
                 op = {ast.Add: "+", ast.Sub: "-", ast.Mult: "*"}[type(e.op)]
@@ -763,6 +877,8 @@ class Translator:
         return V(acc_pre, acc, BOOL)
 
     def compare(self, fn, e, env):
+        if len(e.ops) == 1 and isinstance(e.ops[0], (ast.In, ast.NotIn)):
+            return self.membership(fn, e, env)
         operands = [e.left] + list(e.comparators)
         vals = [self.pure(fn, x, env) for x in operands]
         if len(vals) > 2 and any(v.pre for v in vals[2:]):
@@ -789,7 +905,47 @@ class Translator:
         if a.ty == b.ty and a.ty in (COLOR, KIND, MTYPE, REASON) and isinstance(op, (ast.Eq, ast.NotEq)):
             t = app(EQB[a.ty], a.term, b.term)
             return t if isinstance(op, ast.Eq) else app("negb", t)
+        if isinstance(op, (ast.Eq, ast.NotEq)):
+            t = None
+            if a.ty == CHAR and b.lit is not None and len(b.lit) == 1:       # c == "x", c one character of a str
+                t = f'{opd(a.term)} =? ch "{b.lit}"'
+            elif b.ty == CHAR and a.lit is not None and len(a.lit) == 1:
+                t = f'ch "{a.lit}" =? {opd(b.term)}'
+            elif a.ty == CHAR and b.ty == CHAR:
+                t = f"{opd(a.term)} =? {opd(b.term)}"
+            elif a.ty == L(CHAR) and b.ty == L(CHAR):
+                t = app("pystr_eqb", a.term, b.term)
+            elif isinstance(a.ty, tuple) and a.ty[0] == "list" and b.term == "[]" and b.ty == L(None):   # l == []
+                t = app("negb", app("truthy_list", a.term))
+            if t is not None:
+                return t if isinstance(op, ast.Eq) else app("negb", t)
         fail(node, f"comparison {type(op).__name__} of {a.ty} and {b.ty}")
+
+    def membership(self, fn, e, env):
+        """x in (lit, ...) / x in "chars" / x in [a, b] / x in <list of ints>, and their negations"""
+        x = self.pure(fn, e.left, env)
+        c = e.comparators[0]
+        neg = isinstance(e.ops[0], ast.NotIn)
+        t = None
+        pre = list(x.pre)
+        if isinstance(c, (ast.Tuple, ast.List)) and c.elts:
+            alts = []
+            for el in c.elts:
+                v = self.pure(fn, el, env)
+                if v.pre:
+                    fail(e, "membership in a container whose elements can raise")
+                alts.append(self.compare1(x, ast.Eq(), v, e))
+            t = " || ".join(opd(a) for a in alts)
+        else:
+            v = self.pure(fn, c, env)
+            pre += v.pre
+            if x.ty == CHAR and v.ty == L(CHAR):       # one character in a str: membership of the code point
+                t = app("existsb", app("Z.eqb", x.term), v.term)
+            elif x.ty == INT and v.ty == L(INT):
+                t = app("existsb", app("Z.eqb", x.term), v.term)
+            else:
+                fail(e, f"`in` with a {x.ty} on the left and a {v.ty} on the right")
+        return V(pre, app("negb", t) if neg else t, BOOL)
 
     def iterable(self, fn, e, env):
         """the list of values a `for` / comprehension / any() runs over"""
@@ -801,6 +957,12 @@ class Translator:
                 fail(e, "range of non-int")
             pre = sum((v.pre for v in vs), [])
             return V(pre, app("py_range" if len(vs) == 1 else "py_range2", *[v.term for v in vs]), L(INT))
+        if isinstance(e, ast.Call) and isinstance(e.func, ast.Name) and e.func.id == "reversed" \
+                and not env.has("reversed") and len(e.args) == 1 and not e.keywords:
+            v = self.pure(fn, e.args[0], env)
+            if not (isinstance(v.ty, tuple) and v.ty[0] == "list"):
+                fail(e, f"reversed of a {v.ty}")
+            return V(v.pre, app("rev", v.term), v.ty, False, True)
         v = self.pure(fn, e, env)
         if isinstance(v.ty, tuple) and v.ty[0] == "list":
             return v
@@ -851,6 +1013,18 @@ class Translator:
                 return V(a.pre, a.term, a.ty, False, True)
             if name in ("any", "all") and len(e.args) == 1:
                 return self.any_all(fn, e, env, name)
+            if name == "int" and len(e.args) == 1 and not e.keywords:
+                a = self.pure(fn, e.args[0], env)
+                if a.ty == L(CHAR):
+                    return V(a.pre, app("py_int_str", a.term), INT, True)
+                if a.ty == CHAR:
+                    return V(a.pre, app("py_int_str", f"[{a.term}]"), INT, True)
+                fail(e, f"int() of a {a.ty}")
+            if name == "str" and len(e.args) == 1 and not e.keywords:
+                a = self.pure(fn, e.args[0], env)
+                if a.ty == INT:
+                    return V(a.pre, app("py_str_int", a.term), L(CHAR), True)
+                fail(e, f"str() of a {a.ty}")
             if name == "getattr" and len(e.args) == 2:
                 o = self.pure(fn, e.args[0], env)
                 s = self.pure(fn, e.args[1], env)
@@ -865,7 +1039,7 @@ class Translator:
                 a = self.pure(fn, e.args[0], env)
                 if a.ty != INT:
                     fail(e, "enum lookup by a non-int")
-                return V(a.pre, app(f"{cc[1]}_of_value", a.term), ENUMS[cc[1]][1], True)
+                return V(a.pre, app(f"{self.prefix}{cc[1]}_of_value", a.term), ENUMS[cc[1]][1], True)
             if cc[0] == "piece_cached":
                 args = self.bind_args(e, ["color", "kind"], {})
                 c = self.pure(fn, args["color"], env)
@@ -884,12 +1058,43 @@ class Translator:
                 return V(sum((v.pre for v in vs), []), app("mkMove", *[v.term for v in vs]), MOVE)
             if cc[0] == "evolve":
                 return self.evolve(fn, e, env)
+            if cc[0] == "sc_ctor":
+                args = self.bind_args(e, ["stones", "caps"], {})
+                vs = [self.pure(fn, args[n], env, INT) for n in ("stones", "caps")]
+                for v in vs:
+                    unify(v.ty, INT, e)
+                return V(sum((v.pre for v in vs), []), app("mkSC", *[v.term for v in vs]), SC)
+            if cc[0] == "config_ctor":
+                none = ast.Constant(value=None)
+                args = self.bind_args(e, ["size", "pieces", "capstones"], {"pieces": none, "capstones": none})
+                tys = [INT, O(INT), O(INT)]
+                vs = [self.pure(fn, args[n], env, t) for n, t in zip(["size", "pieces", "capstones"], tys)]
+                for v, t in zip(vs, tys):
+                    unify(v.ty, t, e)
+                return V(sum((v.pre for v in vs), []), app("mkCfg", *[v.term for v in vs]), CONFIG)
+            if cc[0] == "classmethod":
+                if e.keywords:
+                    fail(e, "keyword arguments")
+                return self.call_function(fn, cc[1], [], e.args, env, e)
             fail(e, "call")
+        if isinstance(f, ast.Name) and env.has(f.id) and isinstance(env.get(f.id)[1], tuple) \
+                and env.get(f.id)[1] == CLS("Position"):
+            args = self.bind_args(e, ["size", "stones", "ply", "board"], {})
+            tys = [INT, T(SC, SC), INT, L(L(PIECE))]
+            vs = [self.pure(fn, args[n], env, t) for n, t in zip(["size", "stones", "ply", "board"], tys)]
+            for v, t in zip(vs, tys):
+                unify(v.ty, t, e)
+            return V(sum((v.pre for v in vs), []),
+                     app("mk_position", vs[0].term, vs[1].term, vs[2].term, vs[3].term), POS)
         if isinstance(f, ast.Name) and not env.has(f.id):
             for q, info in self.funcs.items():
                 if q == f.id and info["module"] == fn.module:
                     return self.call_function(fn, q, [], e.args, env, e)
             fail(e, f"call of {f.id}")
+        if isinstance(f, ast.Attribute) and self.const_chain(f.value, env) is None:
+            sm = self.str_method(fn, e, env)
+            if sm is not None:
+                return sm
         if isinstance(f, ast.Attribute):
             recv = self.pure(fn, f.value, env)
             if recv.ty == POS and f.attr == "has_road" and not e.args and not e.keywords:
@@ -902,6 +1107,71 @@ class Translator:
                 fail(e, "keyword arguments")
             return self.call_function(fn, q, [recv], e.args, env, e)
         fail(e, "call")
+
+    def as_str_tree(self, fn, node, env):
+        """the argument of str.format as a computation of its str() (an int prints through py_str_int)"""
+        if isinstance(node, ast.IfExp):
+            c = self.pure(fn, node.test, env)
+            if c.pre:
+                fail(node, "condition that can raise inside a format argument")
+            return ("if", self.truth(c, node.test), self.as_str_tree(fn, node.body, env),
+                    self.as_str_tree(fn, node.orelse, env))
+        v = self.pure(fn, node, env)
+        if v.ty == INT:
+            return wrap(v.pre, ("tail", app("py_str_int", v.term)))
+        if v.ty == L(CHAR):
+            return wrap(v.pre, ("ret", v.term))
+        if v.ty == CHAR:
+            return wrap(v.pre, ("ret", f"[{v.term}]"))
+        fail(node, f"format argument of type {v.ty}")
+
+    def str_method(self, fn, e, env):
+        """s.split(c) / sep.join(l) / s.isascii() / s.isdigit() / "..{0}..".format(x); None when not a str method"""
+        f = e.func
+        if f.attr not in ("split", "join", "isascii", "isdigit", "format"):
+            return None
+        recv = self.pure(fn, f.value, env)
+        if recv.ty != L(CHAR):
+            return None
+        if e.keywords:
+            fail(e, "keyword arguments")
+        if f.attr in ("isascii", "isdigit") and not e.args:
+            return V(recv.pre, app("py_" + f.attr, recv.term), BOOL)
+        if f.attr == "split" and len(e.args) == 1:
+            sep = self.pure(fn, e.args[0], env)
+            if sep.lit is None or len(sep.lit) != 1:
+                fail(e, "split: a one-character literal separator expected")
+            return V(recv.pre, app("py_split1", f'(ch "{sep.lit}")', recv.term), L(L(CHAR)), False, True)
+        if f.attr == "join" and len(e.args) == 1:
+            arg = self.iterable(fn, e.args[0], env)
+            if arg.ty != L(L(CHAR)):
+                fail(e, "join of something that is not a list of str")
+            return V(recv.pre + arg.pre, app("py_join", recv.term, arg.term), L(CHAR))
+        if f.attr == "format" and recv.lit is not None:
+            import string
+            parts, pre = [], list(recv.pre)
+            auto = 0
+            for text, field, spec, conv in string.Formatter().parse(recv.lit):
+                if text:
+                    parts.append(f'pystr "{text}"')
+                if field is None:
+                    continue
+                if spec or conv:
+                    fail(e, "format specification")
+                if field == "":
+                    k, auto = auto, auto + 1
+                elif field.isdigit():
+                    k = int(field)
+                else:
+                    fail(e, "format field")
+                if k >= len(e.args):
+                    fail(e, "format: missing argument")
+                tree = self.as_str_tree(fn, e.args[k], env)
+                t = fn.temp()
+                pre.append(("bind", t, tree))
+                parts.append(t)
+            return V(pre, " ++ ".join(opd(x) for x in parts) if parts else "[]", L(CHAR))
+        fail(e, f"str method {f.attr}")
 
     def bind_args(self, e, names, defaults):
         if len(e.args) > len(names):
@@ -1014,8 +1284,13 @@ class Translator:
             elif isinstance(t, (ast.Tuple, ast.List)):
                 for x in t.elts:
                     tgt(x)
+            elif isinstance(t, ast.Starred):
+                tgt(t.value)
             elif isinstance(t, ast.Subscript) and isinstance(t.value, ast.Name):
                 add(t.value.id)
+            elif isinstance(t, ast.Subscript) and isinstance(t.value, ast.Subscript) \
+                    and isinstance(t.value.value, ast.Name):
+                add(t.value.value.id)
             else:
                 fail(t, "assignment target")
 
@@ -1035,7 +1310,16 @@ class Translator:
                 elif isinstance(s, ast.If):
                     walk(s.body)
                     walk(s.orelse)
-                elif isinstance(s, (ast.While, ast.With, ast.Try, ast.FunctionDef, ast.ClassDef, ast.Delete,
+                elif isinstance(s, ast.While):
+                    walk(s.body)
+                    walk(s.orelse)
+                elif isinstance(s, ast.Try):
+                    walk(s.body)
+                    for h in s.handlers:
+                        walk(h.body)
+                    walk(s.orelse)
+                    walk(s.finalbody)
+                elif isinstance(s, (ast.With, ast.FunctionDef, ast.ClassDef, ast.Delete,
                                     ast.Global, ast.Nonlocal, ast.Match, ast.Import, ast.ImportFrom)):
                     fail(s, f"statement {type(s).__name__}")
                 elif isinstance(s, ast.Expr) and isinstance(s.value, ast.Call):
@@ -1060,6 +1344,7 @@ class Translator:
                         out.add(t.id)
                     elif isinstance(t, ast.Tuple):
                         out |= {x.id for x in t.elts if isinstance(x, ast.Name)}
+                        out |= {x.value.id for x in t.elts if isinstance(x, ast.Starred) and isinstance(x.value, ast.Name)}
             elif isinstance(s, ast.If) and s.orelse:
                 a_ft, b_ft = self.falls_through(s.body), self.falls_through(s.orelse)
                 if a_ft and b_ft:
@@ -1088,8 +1373,10 @@ class Translator:
             if isinstance(s.exc, ast.Call):      # the message must not raise itself
                 for a in s.exc.args:
                     if not isinstance(a, ast.Constant):
-                        fail(s, "exception argument that is not a literal")
-            if name == "IllegalMove":
+                        m = self.expr(fn, a, env)
+                        if m.comp or m.pre or m.ty not in (L(CHAR), STR):
+                            fail(s, "exception argument that is not a literal or a str concatenation")
+            if name == self.illegal:
                 return ("raise", "Illegal")
             if name in EXN:
                 return ("raise", f"Crash {name}")
@@ -1111,6 +1398,9 @@ class Translator:
             if len(s.targets) != 1:
                 fail(s, "chained assignment")
             return self.assign(fn, s.targets[0], s.value, env, cont, s)
+        if isinstance(s, ast.AugAssign) and isinstance(s.target, ast.Subscript) \
+                and isinstance(s.target.value, ast.Subscript) and isinstance(s.target.value.value, ast.Name):
+            return self.aug_nested(fn, s, env, cont)
         if isinstance(s, ast.AugAssign):
             if not isinstance(s.target, ast.Name) or not env.has(s.target.id):
                 fail(s, "augmented assignment target")
@@ -1124,7 +1414,37 @@ class Translator:
             return self.if_stmt(fn, s, env, cont, ctx)
         if isinstance(s, ast.For):
             return self.for_stmt(fn, s, env, cont, ctx)
+        if isinstance(s, ast.While):
+            return self.while_stmt(fn, s, env, cont, ctx)
+        if isinstance(s, ast.Try):
+            return self.try_stmt(fn, s, env, cont, ctx)
         fail(s, f"statement {type(s).__name__}")
+
+    def aug_nested(self, fn, s, env, cont):
+        """t[i][j] op= v  where t is a pair of lists this function created: the list t[i] is updated in place, which
+        is visible through t"""
+        name = s.target.value.value.id
+        if not env.has(name):
+            fail(s, "augmented assignment target")
+        coq, ty, fresh = env.get(name)
+        if not (isinstance(ty, tuple) and ty[0] == "tuple" and len(ty) == 3 and ty[1] == ty[2]
+                and isinstance(ty[1], tuple) and ty[1][0] == "list") or not fresh:
+            fail(s, f"{name}[i][j] op= v: {name} must be a pair of lists created here")
+        self.check_not_aliased(fn, name, s)
+        i = self.pure(fn, s.target.value.slice, env)
+        inner = fn.temp()
+        j = self.pure(fn, s.target.slice, env)
+        old = fn.temp()
+        v = self.pure(fn, s.value, env)
+        if i.ty != INT or j.ty != INT or v.ty != INT or ty[1][1] != INT or not isinstance(s.op, (ast.Add, ast.Sub)):
+            fail(s, "nested augmented assignment over non-ints")
+        op = "+" if isinstance(s.op, ast.Add) else "-"
+        inner2 = fn.temp()
+        pre = (i.pre + [("bind", inner, app("py_tuple2_get", coq, i.term))] + j.pre +
+               [("bind", old, app("py_getitem", inner, j.term))] + v.pre +
+               [("bind", inner2, app("py_setitem", inner, j.term, f"{old} {op} {opd(v.term)}")),
+                ("bind", coq, app("py_tuple2_update", coq, i.term, inner2))])
+        return wrap(pre, cont(env))
 
     def do_return(self, fn, value, env, node):
         if fn.ret_ty == DELTA:
@@ -1169,14 +1489,44 @@ class Translator:
                 fail(node, "a variable holding None")
             if env.has(target.id):      # a variable keeps its type
                 ty = unify(env.get(target.id)[1], ty, node)
+            if ty == L(None) and fn.body is not None:
+                # x = []: the element type from the first x.append(e) whose e can be typed here
+                for n in ast.walk(fn.body):
+                    if isinstance(n, ast.Call) and isinstance(n.func, ast.Attribute) and n.func.attr == "append" \
+                            and isinstance(n.func.value, ast.Name) and n.func.value.id == target.id and len(n.args) == 1:
+                        scratch = Fn(self, fn.module, fn.qual, fn.coq)
+                        scratch.ntemp = 10 ** 6
+                        try:
+                            t = self.expr(scratch, n.args[0], env).ty
+                        except Untranslatable:
+                            continue
+                        if known(t):
+                            ty = L(t)
+                            break
             env2 = env.set(target.id, c, ty, v.fresh)
             return wrap(v.pre, ("bind" if v.comp else "let", c, v.term, cont(env2)))
+        if isinstance(target, ast.Tuple) and len(target.elts) == 2 and isinstance(target.elts[0], ast.Name) \
+                and isinstance(target.elts[1], ast.Starred) and isinstance(target.elts[1].value, ast.Name):
+            # head, *rest = l   (ValueError on an empty list)
+            h, r = target.elts[0].id, target.elts[1].value.id
+            self.check_not_aliased(fn, h, node)
+            self.check_not_aliased(fn, r, node)
+            v = self.pure(fn, value, env)
+            if not (isinstance(v.ty, tuple) and v.ty[0] == "list") or h == r:
+                fail(node, "starred unpacking of something that is not a list")
+            ch, cr = self.cname(h), self.cname(r)
+            env2 = env.set(h, ch, v.ty[1]).set(r, cr, v.ty, True)
+            return wrap(v.pre, ("bind", pattern([ch, cr]), app("py_uncons", v.term), cont(env2)))
         if isinstance(target, ast.Tuple):
             if not all(isinstance(x, ast.Name) for x in target.elts):
                 fail(node, "nested unpacking")
             for x in target.elts:
                 self.check_not_aliased(fn, x.id, node)
             v = self.expr(fn, value, env)
+            if isinstance(v.ty, tuple) and v.ty[0] == "list" and len(target.elts) in (2, 3) and known(v.ty):
+                # a, b, c = l : ValueError unless len(l) is right
+                v = self.force(fn, v)
+                v = V(v.pre, app(f"py_unpack{len(target.elts)}", v.term), T(*([v.ty[1]] * len(target.elts))), True)
             if not (isinstance(v.ty, tuple) and v.ty[0] == "tuple" and len(v.ty) == len(target.elts) + 1):
                 fail(node, f"unpacking a {v.ty} into {len(target.elts)} names")
             names, env2 = [], env
@@ -1267,6 +1617,19 @@ class Translator:
         fail(c, "call used as a statement")
 
     def if_stmt(self, fn, s, env, cont, ctx):
+        t = s.test
+        if isinstance(t, ast.Compare) and len(t.ops) == 1 and isinstance(t.ops[0], ast.IsNot) \
+                and isinstance(t.comparators[0], ast.Constant) and t.comparators[0].value is None and not s.orelse \
+                and len(s.body) == 1 and isinstance(s.body[0], ast.Return) and s.body[0].value is not None \
+                and ast.dump(s.body[0].value) == ast.dump(t.left) and not fn.loop_depth \
+                and not (isinstance(fn.ret_ty, tuple) and fn.ret_ty[0] == "opt"):
+            # if X is not None: return X      (X : Optional[T], the function returns T)
+            x = self.pure(fn, t.left, env)
+            if not (isinstance(x.ty, tuple) and x.ty[0] == "opt"):
+                fail(s, "`is not None` on a value that is not optional")
+            unify(x.ty[1], fn.ret_ty, s)
+            v = fn.temp()
+            return wrap(x.pre, ("matchopt", x.term, v, ("ret", v), cont(env)))
         c = self.pure(fn, s.test, env)
         cond = self.truth(c, s.test)
         a_ft, b_ft = self.falls_through(s.body), self.falls_through(s.orelse)
@@ -1308,19 +1671,91 @@ class Translator:
                     fresh = fresh and e.get(n)[2]
                 env2 = env2.set(n, self.cname(n), ty, fresh)
 
-            def fill(t):
+            def leaf(t):
                 if t[0] == "ret" and isinstance(t[1], tuple) and t[1][0] == "JOIN":
                     return ("ret", tuple_term([t[1][1].get(n)[0] for n in names]))
-                if t[0] in ("let", "bind"):
-                    return (t[0], t[1], t[2], fill(t[3]))
-                if t[0] == "if":
-                    return ("if", t[1], fill(t[2]), fill(t[3]))
                 return t
+
+            def fill(t):
+                return map_tree(t, leaf)
             fn.branch_depth = depth
             return wrap(c.pre, ("bind", pattern([self.cname(n) for n in names]), ("if", cond, fill(ta), fill(tb)),
                                 cont(env2)))
         finally:
             fn.branch_depth = depth
+
+    def try_stmt(self, fn, s, env, cont, ctx):
+        """try: x = <expr>  except <E>: <statements that do not fall through>"""
+        if s.orelse or s.finalbody or len(s.handlers) != 1 or len(s.body) != 1:
+            fail(s, "try statement: one assignment and one handler expected")
+        h = s.handlers[0]
+        if h.name is not None or not isinstance(h.type, ast.Name) or h.type.id not in EXN:
+            fail(s, "exception handler")
+        b = s.body[0]
+        if not (isinstance(b, ast.Assign) and len(b.targets) == 1 and isinstance(b.targets[0], ast.Name)):
+            fail(s, "try body: a single assignment to a name expected")
+        if self.falls_through(h.body):
+            fail(s, "an exception handler that falls through")
+        self.check_not_aliased(fn, b.targets[0].id, s)
+        v = self.expr(fn, b.value, env)
+        body = wrap(v.pre, ("tail", v.term) if v.comp else ("ret", v.term))
+        handler = self.block(fn, h.body, env, self.unreachable, ctx)
+        c = self.cname(b.targets[0].id)
+        env2 = env.set(b.targets[0].id, c, v.ty, v.fresh)
+        return ("bind", c, ("catch", body, h.type.id, handler), cont(env2))
+
+    def while_stmt(self, fn, s, env, cont, ctx):
+        """while c: body  ->  Fixpoint on fuel; running out of fuel is the outcome Crash OutOfFuel.  The fuel is an
+        annotation of the translator (WHILE_FUEL, an expression over the locals at loop entry); it is not trusted:
+        the equivalence theorems must show that OutOfFuel does not occur."""
+        if s.orelse:
+            fail(s, "while ... else")
+        fn.nwhile = getattr(fn, "nwhile", 0) + 1
+        key = (fn.module, fn.qual, fn.nwhile)
+        if key not in self.while_fuel:
+            fail(s, "while loop without a fuel annotation")
+        fuel = self.pure(fn, ast.parse(self.while_fuel[key], mode="eval").body, env)
+        if fuel.ty != INT or fuel.pre:
+            fail(s, "fuel annotation")
+        body_assigned = self.assigned(s.body)
+        state = [n for n in env.names() if n in body_assigned]
+        if not state:
+            fail(s, "a while loop without effect")
+        lname = f"{fn.coq}_while{fn.nwhile}"
+        used = {n.id for b in s.body + [s.test] for n in ast.walk(b) if isinstance(n, ast.Name)}
+        free = [n for n in env.names() if n in used and n not in state]
+        ends = []
+
+        def k(e):
+            ends.append(e)
+            return ("tailrec", ("CALL", e))
+        fn.loop_depth += 1
+        saved_bd, fn.branch_depth = fn.branch_depth, 0
+        c = self.pure(fn, s.test, env)
+        body = self.block(fn, s.body, env, k, dict(ctx, **{"continue": k}))
+        fn.branch_depth = saved_bd
+        fn.loop_depth -= 1
+        env_after = env
+        for n in state:
+            ty = env.get(n)[1]
+            for e in ends:
+                ty = unify(ty, e.get(n)[1], s)
+            env_after = env_after.set(n, env.get(n)[0], ty, env.get(n)[2])
+        env0, env = env, env_after
+
+        def call(e):
+            return app(lname, *(["fuel'"] + [e.get(n)[0] for n in free] + [e.get(n)[0] for n in state]))
+        body = map_tree(body, lambda l: ("tailrec", call(l[1][1])) if l[0] == "tailrec" and isinstance(l[1], tuple) else l,
+                        rhs=True)
+        st_term = tuple_term([env.get(n)[0] for n in state])
+        tree = purify(wrap(c.pre, ("if", self.truth(c, s.test), body, ("ret", st_term))))
+        st_ty = coq_type(T(*[env.get(n)[1] for n in state]) if len(state) > 1 else env.get(state[0])[1], False)
+        params = "".join(f" ({env.get(n)[0]} : {coq_type(env.get(n)[1])})" for n in free + state)
+        text = (f"Fixpoint {lname} (fuel : nat){params} {{struct fuel}} : res {st_ty} :=\n"
+                f"  match fuel with\n  | O => Crash OutOfFuel\n  | S fuel' =>\n{show(tree, 4, True)}\n  end.")
+        fn.aux.append(text)
+        callterm = app(lname, app("Z.to_nat", fuel.term), *([env.get(n)[0] for n in free] + [env.get(n)[0] for n in state]))
+        return ("bind", pattern([env.get(n)[0] for n in state]), callterm, cont(env))
 
     @staticmethod
     def unreachable(env):
@@ -1373,14 +1808,8 @@ class Translator:
             env_after = env_after.set(n, env.get(n)[0], ty, fresh)
 
         def fill(t):
-            if t[0] == "tailrec":
-                return ("tailrec", call(t[1][1]))
-            if t[0] in ("let", "bind"):
-                rhs = fill(t[2]) if isinstance(t[2], tuple) else t[2]
-                return (t[0], t[1], rhs, fill(t[3]))
-            if t[0] == "if":
-                return ("if", t[1], fill(t[2]), fill(t[3]))
-            return t
+            return map_tree(t, lambda l: ("tailrec", call(l[1][1])) if l[0] == "tailrec" and isinstance(l[1], tuple) else l,
+                            rhs=True)
         body = purify(fill(body))
         is_pure = tree_pure(body)
         st_ty = coq_type(T(*[env_after.get(n)[1] for n in state]) if len(state) > 1 else env_after.get(state[0])[1], False) \
@@ -1390,7 +1819,7 @@ class Translator:
         st_term = tuple_term([env.get(n)[0] for n in state]) if state else "tt"
         if not state:
             fail(s, "a loop without effect")
-        res_ty = st_ty if is_pure else f"res {st_ty}"
+        res_ty = (st_ty[1:-1] if st_ty.startswith("(") and atomic(st_ty) else st_ty) if is_pure else f"res {st_ty}"
         text = (f"Fixpoint {lname}{params} (it : {coq_type(it.ty)}) {{struct it}} : {res_ty} :=\n"
                 f"  match it with\n"
                 f"  | [] => {st_term if is_pure else app('ret', st_term)}\n"
@@ -1403,15 +1832,21 @@ class Translator:
     # ------------------------------------------------------------------ functions
     def do_function(self, module, qual, coq, ptys, ret, extra):
         fd = self.find_def(module, qual)
-        if fd.args.vararg or fd.args.kwarg or fd.args.kwonlyargs or fd.args.defaults or fd.args.posonlyargs:
+        if fd.args.vararg or fd.args.kwarg or fd.args.kwonlyargs or fd.args.posonlyargs or \
+                not all(isinstance(d, ast.Constant) for d in fd.args.defaults):
             fail(fd, "parameter list")
-        for d in fd.decorator_list:
-            fail(d, "decorator")
+        decos = [_src(d) for d in fd.decorator_list]
+        is_cm = decos == ["classmethod"]
+        if decos not in ([], ["property"], ["classmethod"]):
+            fail(fd, "decorator")
+        if is_cm != (bool(ptys) and isinstance(ptys[0], tuple) and ptys[0][0] == "classref"):
+            fail(fd, f"{qual}: classmethod expected / not expected")
         names = [a.arg for a in fd.args.args]
         if len(names) != len(ptys):
             fail(fd, f"{qual}: expected {len(ptys)} parameters")
         fn = Fn(self, module, qual, coq)
         fn.ret_ty = ret
+        fn.body = fd
         fn.locals = {n.id for n in ast.walk(fd) if isinstance(n, ast.Name)} | set(names)
         env = Env()
         params = []
@@ -1420,7 +1855,8 @@ class Translator:
             params.append(f"({self.cname(n)} : {coq_type(t)})")
         for n, t in zip(names, ptys):
             env = env.set(n, self.cname(n), t)
-            params.append(f"({self.cname(n)} : {coq_type(t)})")
+            if not (isinstance(t, tuple) and t[0] == "classref"):
+                params.append(f"({self.cname(n)} : {coq_type(t)})")
         if len({env.get(n)[0] for n in env.names()}) != len(env.names()):
             fail(fd, "parameter names")
 
@@ -1429,7 +1865,10 @@ class Translator:
                 return self.exit_delta(fn, e, fd)
             fail(fd, f"{qual} can finish without a return statement")
         tree = purify(self.block(fn, fd.body, env, end, {}))
-        self.emit(fn, module, qual, coq, params, ptys, ret, extra, tree)
+        self.emit(fn, module, qual, coq, params, [t for t in ptys if not (isinstance(t, tuple) and t[0] == "classref")],
+                  ret, extra, tree)
+        if is_cm:
+            self.funcs[qual]["classmethod"] = True
 
     def emit(self, fn, module, qual, coq, params, ptys, ret, extra, tree):
         is_pure = tree_pure(tree)
@@ -1508,15 +1947,187 @@ class Translator:
         self.out.append("(* moves.py: DIRECTIONS (a dict literal; looked up with py_dict_get, KeyError when absent) *)\n"
                         "Definition DIRECTIONS : list (mtype * (Z * Z)) :=\n  [" + "; ".join(items) + "].")
 
+    # ------------------------------------------------------------------ module / class level constants
+    def do_const(self, module, key, coq, value, comment):
+        """NAME = <expression> at module or class level, as a Definition (plain, or `res` when the expression can raise)"""
+        fn = Fn(self, module, key, coq)
+        fn.ret_ty = None
+        v = self.expr(fn, value, Env())
+        if v.ty is None or not known(v.ty) or v.ty == NONE:
+            fail(value, f"type of the constant {key}")
+        tree = purify(wrap(v.pre, ("tail", v.term) if v.comp else ("ret", v.term)))
+        is_pure = tree_pure(tree)
+        if isinstance(v.ty, tuple) and v.ty[0] == "dict":
+            fail(value, "dict constant")
+        rty = coq_type(v.ty) if is_pure else f"res {coq_type(v.ty, False)}"
+        self.out.append(f"(* {comment} *)\nDefinition {coq} : {rty} :=\n{show(tree, 2, not is_pure)}.")
+        self.consts[key] = {"coq": coq, "ty": v.ty, "pure": is_pure}
+        self.coq_names.add(coq)
+
+    def do_class_consts(self, module, cls):
+        """the assignments in the body of a class that is used as a namespace of constants (encoding.Token)"""
+        cd = self.find_class(module, cls)
+        if cd.bases or cd.decorator_list or cd.keywords:
+            fail(cd, f"{cls} is not a plain namespace class")
+        self.scope = cls + "."
+        try:
+            for n in cd.body:
+                if isinstance(n, ast.Expr) and isinstance(n.value, ast.Constant):
+                    continue
+                if not (isinstance(n, ast.Assign) and len(n.targets) == 1 and isinstance(n.targets[0], ast.Name)):
+                    fail(n, f"statement in the body of {cls}")
+                name = n.targets[0].id
+                if f"{cls}.{name}" in self.consts:
+                    fail(n, f"{cls}.{name} assigned twice")
+                self.do_const(module, f"{cls}.{name}", f"{cls}_{name}", n.value, f"{module}.py: {cls}.{name}")
+        finally:
+            self.scope = ""
+        # nothing else may change the namespace
+        for x in ast.walk(self.mods[module]):
+            if isinstance(x, (ast.Assign, ast.AugAssign, ast.Delete)):
+                for t in (x.targets if not isinstance(x, ast.AugAssign) else [x.target]):
+                    base = t
+                    while isinstance(base, (ast.Attribute, ast.Subscript)):
+                        base = base.value
+                    if isinstance(base, ast.Name) and base.id == cls and t is not base:
+                        fail(x, f"{cls} is changed after its definition")
+            if isinstance(x, ast.Call) and isinstance(x.func, ast.Name) and x.func.id in ("setattr", "delattr"):
+                fail(x, "setattr / delattr")
+
+    def module_assign(self, module, name):
+        found = None
+        for n in self.mods[module].body:
+            for x in ast.walk(n) if not isinstance(n, (ast.FunctionDef, ast.ClassDef)) else []:
+                if isinstance(x, ast.Name) and x.id == name and not isinstance(x.ctx, ast.Load):
+                    if found is not None or not (isinstance(n, ast.Assign) and len(n.targets) == 1
+                                                 and n.targets[0] is x):
+                        fail(n, f"{name} is assigned more than once or not by a plain assignment")
+                    found = n
+        for n in ast.walk(self.mods[module]):
+            if isinstance(n, ast.Global):
+                fail(n, "global statement")
+            if isinstance(n, (ast.Assign, ast.AugAssign)):
+                for t in (n.targets if isinstance(n, ast.Assign) else [n.target]):
+                    if isinstance(t, ast.Subscript) and _src(t.value) == name:
+                        fail(n, f"{name} is changed in place")
+        if found is None:
+            raise Untranslatable(f"{module}.py: no assignment of {name}")
+        return found.value
+
+    def do_dict_const(self, module, name, kty, vty):
+        d = self.module_assign(module, name)
+        if not isinstance(d, ast.Dict):
+            fail(d, f"{name}: a dict literal expected")
+        fn = Fn(self, module, name, name)
+        items, seen = [], set()
+        for k, v in zip(d.keys, d.values):
+            if k is None:
+                fail(d, "dict unpacking")
+            kv = self.expr(fn, k, Env())
+            vv = self.expr(fn, v, Env())
+            if kv.comp or vv.comp or kv.pre or vv.pre:
+                fail(d, f"{name}: an entry can raise")
+            unify(kv.ty, kty, k)
+            unify(vv.ty, vty, v)
+            if kv.term in seen:
+                fail(k, "repeated key (the later entry would win)")
+            seen.add(kv.term)
+            items.append(f"({kv.term}, {vv.term})")
+        self.out.append(f"(* {module}.py: {name} (a dict literal; looked up with py_dict_get, KeyError when absent) *)\n"
+                        f"Definition {name} : list ({coq_type(kty, False)} * {coq_type(vty, False)}) :=\n  ["
+                        + ";\n   ".join(items) + "].")
+        self.consts[name] = {"coq": name, "ty": ("dict", kty, vty), "pure": True}
+        self.coq_names.add(name)
+
+    def begin_output(self, prefix):
+        """start a further generated file: what was generated so far is referred to by qualified names"""
+        for info in self.funcs.values():
+            if "." not in info["coq"]:
+                info["coq"] = prefix + info["coq"]
+        for c in self.consts.values():
+            if "." not in c["coq"]:
+                c["coq"] = prefix + c["coq"]
+        if not self.prefix:
+            self.prefix = prefix
+        self.out = []
+
+    def run_encoding(self):
+        """second output: tak/model/encoding.py `encode` (+ the Token vocabulary and TOP_PIECES) -> gen/EncodingGen.v"""
+        self.begin_output("GameGen.")
+        m = "encoding"
+        for name in ("MAX_RESERVES", "MAX_CAPSTONES"):
+            self.do_const(m, name, name, self.module_assign(m, name), f"{m}.py: {name}")
+        self.do_class_consts(m, "Token")
+        self.do_dict_const(m, "TOP_PIECES", T(BOOL, KIND), INT)
+        self.coq_names.add("encode")
+        self.do_function(m, "encode", "encode", [POS, BOOL], L(INT), [])
+        digest = hashlib.sha256(self.src[m].encode()).hexdigest()[:16]
+        head = (
+            "(* GENERATED by harness/py2coq.py from python/tak/model/encoding.py of the tree under test - do not edit.\n"
+            "   `encode`, the Token vocabulary (computed the way the class body computes it) and TOP_PIECES, written\n"
+            "   against model/PySem.v; Position.to_move / Color.flip are the functions of gen/GameGen.v.\n"
+            f"   sha256 of the source: {digest} *)\n"
+            "From Coq Require Import ZArith String List Bool.\n"
+            "From TV Require Import model.Tak model.Road model.PySem.\n"
+            "From TV Require gen.GameGen.\n"
+            "Import ListNotations.\nOpen Scope Z_scope.\n")
+        return head + "\n" + "\n\n".join(self.out) + "\n"
+
+    def run_tps(self):
+        """third output: tak/ptn/tps.py -> gen/TpsGen.v.  A str is the list of its code points."""
+        self.begin_output("GameGen.")
+        m = "tps"
+        self.str_codepoints = True
+        self.illegal = "IllegalTPS"
+        ok = False
+        for n in self.mods[m].body:
+            if isinstance(n, ast.ClassDef) and n.name == "IllegalTPS":
+                ok = [_src(b) for b in n.bases] == ["Exception"] and all(isinstance(x, ast.Pass) for x in n.body)
+        if not ok:
+            raise Untranslatable("tps.py: class IllegalTPS(Exception): pass expected")
+        imports = [_src(n) for n in self.mods[m].body if isinstance(n, (ast.Import, ast.ImportFrom))]
+        if imports != ["import tak"]:
+            raise Untranslatable(f"tps.py: imports are {imports}, `import tak` expected")
+        # fuel of the two while loops of _format_row: each iteration of the outer loop advances i by at least one,
+        # each iteration of the inner loop advances x by one, both stay below len(row)
+        self.while_fuel = {(m, "_format_row", 1): "len(row) + 1", (m, "_format_row", 2): "len(row) + 1"}
+        targets = [("parse_row", [L(CHAR)], L(L(PIECE))), ("parse_tps", [L(CHAR)], POS),
+                   ("_format_square", [L(PIECE)], L(CHAR)), ("_format_row", [L(L(PIECE))], L(CHAR)),
+                   ("format_tps", [POS], L(CHAR))]
+        self.coq_names |= {t[0] for t in targets}
+        for name, ptys, ret in targets:
+            self.do_function(m, name, name, ptys, ret, [])
+        digest = hashlib.sha256(self.src[m].encode()).hexdigest()[:16]
+        head = (
+            "(* GENERATED by harness/py2coq.py from python/tak/ptn/tps.py of the tree under test - do not edit.\n"
+            "   parse_tps, parse_row, format_tps, _format_row, _format_square written against model/PySem.v; a str is the\n"
+            "   list of its Unicode code points, `Illegal` is `raise IllegalTPS(..)`, the two while loops of _format_row run\n"
+            "   on fuel (Crash OutOfFuel when it runs out).  Position.from_squares / Config are those of gen/GameGen.v.\n"
+            f"   sha256 of the source: {digest} *)\n"
+            "From Coq Require Import ZArith String List Bool.\n"
+            "From TV Require Import model.Tak model.Road model.PySem.\n"
+            "From TV Require gen.GameGen.\n"
+            "Import ListNotations.\nOpen Scope Z_scope.\n")
+        return head + "\n" + "\n\n".join(self.out) + "\n"
+
     # ------------------------------------------------------------------ driver
     def run(self):
-        self.coq_names = {t[2] for t in TARGETS} | {"DIRECTIONS"} | \
+        self.coq_names |= {t[2] for t in TARGETS} | {"DIRECTIONS"} | \
             {f"{e}_value" for e in ENUMS} | {f"{e}_of_value" for e in ENUMS}
         self.check_pinned()
         self.do_enums()
         for module, qual, coq, ptys, ret, extra in TARGETS:
             if qual == "MoveType.direction":
                 self.do_directions()
+            if qual == "Config.flat_count":
+                cd = self.find_class("game", "Config")
+                for n in cd.body:
+                    if isinstance(n, ast.Assign) and len(n.targets) == 1 and isinstance(n.targets[0], ast.Name) \
+                            and n.targets[0].id in ("DEFAULT_PIECES", "DEFAULT_CAPS"):
+                        name = n.targets[0].id
+                        if not isinstance(n.value, ast.List):
+                            fail(n, "a list literal expected")
+                        self.do_const("game", f"Config.{name}", f"Config_{name}", n.value, f"game.py: Config.{name}")
             if qual == "<ALL_SLIDES>":
                 self.do_all_slides(module, qual, coq, ret)
             else:
@@ -1524,7 +2135,7 @@ class Translator:
         return self.text()
 
     def text(self):
-        digest = hashlib.sha256("".join(self.src[m] for m in sorted(self.src)).encode()).hexdigest()[:16]
+        digest = hashlib.sha256("".join(self.src[m] for m in sorted(BASE_MODULES)).encode()).hexdigest()[:16]
         head = (
             "(* GENERATED by harness/py2coq.py from python/tak/pieces.py, moves.py, game.py of the tree under test -\n"
             "   do not edit.  A shallow embedding: one Gallina function per Python function, written against\n"
@@ -1542,15 +2153,22 @@ STUB = ("(* GENERATED by harness/py2coq.py: the translation FAILED, so the defin
         "Definition translation_failed : unit := tt.\n")
 
 
-def read_sources(repo_python):
+BASE_MODULES = ("pieces", "moves", "game")
+EXTRA_MODULES = {"encoding": "model/encoding.py", "tps": "ptn/tps.py"}
+
+
+def read_sources(repo_python, extra=()):
     d = Path(repo_python) / "tak"
-    return {m: (d / f"{m}.py").read_text() for m in ("pieces", "moves", "game")}
+    out = {m: (d / f"{m}.py").read_text() for m in BASE_MODULES}
+    out["__init__"] = (d / "__init__.py").read_text()
+    for m in extra:
+        out[m] = (d / EXTRA_MODULES[m]).read_text()
+    return out
 
 
-def translate(repo_python):
-    """(coq text, error or None)"""
+def _guarded(f):
     try:
-        return Translator(read_sources(repo_python)).run(), None
+        return f(), None
     except Untranslatable as e:
         why = str(e).replace("*)", "* )").replace("(*", "( *").replace('"', "'")
         return STUB.format(why=why), str(e)
@@ -1559,9 +2177,33 @@ def translate(repo_python):
         return STUB.format(why=why), f"{type(e).__name__}: {e}"
 
 
+def translate(repo_python):
+    """gen/GameGen.v: (coq text, error or None)"""
+    return _guarded(lambda: Translator(read_sources(repo_python)).run())
+
+
+def translate_encoding(repo_python):
+    """gen/EncodingGen.v: (coq text, error or None); needs the translation of game.py / moves.py / pieces.py first"""
+    def f():
+        t = Translator(read_sources(repo_python, extra=("encoding",)))
+        t.run()
+        return t.run_encoding()
+    return _guarded(f)
+
+
+def translate_tps(repo_python):
+    """gen/TpsGen.v: (coq text, error or None)"""
+    def f():
+        t = Translator(read_sources(repo_python, extra=("tps",)))
+        t.run()
+        return t.run_tps()
+    return _guarded(f)
+
+
 def main():
     repo_python = sys.argv[1] if len(sys.argv) > 1 else "/repo/python"
-    text, err = translate(repo_python)
+    which = sys.argv[2] if len(sys.argv) > 2 else "game"
+    text, err = {"game": translate, "encoding": translate_encoding, "tps": translate_tps}[which](repo_python)
     sys.stdout.write(text)
     if err:
         sys.stderr.write("TRANSLATION FAILED: " + err + "\n")
